@@ -110,10 +110,16 @@ func patchStruct(S *schema.Schema, pv reflect.Value, n *schema.Named, name strin
 	_, chain := owner(S, n, name)
 	cur := pv
 	for _, inc := range chain {
-		cur = cur.FieldByName(inc + "_PartialUpdate")
-		if !cur.IsValid() {
+		next := cur.FieldByName(inc + "_PartialUpdate")
+		if !next.IsValid() {
+			// root-module bindings flatten included records: the slots of an included field live in the including
+			// record's own Set_Fields / Delete_Fields
+			if sf := cur.FieldByName("Set_Fields"); sf.IsValid() && sf.FieldByName(schema.Exported(name)).IsValid() {
+				return cur
+			}
 			panic("dyn: no embedded partial update struct for included record " + inc)
 		}
+		cur = next
 	}
 	return cur
 }
